@@ -422,6 +422,65 @@ pub fn run(args: &Args) -> i32 {
     rec.sub("local_time_type", json!({"max_designation_len": maxlen, "evaluations": t4.evals, "accepted": t4.accepted, "refused": t4.refused}));
     total = total.merge(t4);
 
+    // ---- (5) value constructors and their getters return exactly what was passed (every boundary value of every field);
+    // TimeZone::fixed(o) is the zone of the single type with_ut_offset(o)
+    let mut t5 = Tally::default();
+    {
+        let i64s: Vec<i64> = {
+            let mut v = vec![i64::MIN, i64::MIN + 1, -1, 0, 1, i64::MAX - 1, i64::MAX];
+            for k in [7u32, 8, 15, 16, 31, 32, 53, 62] {
+                v.extend([-(1i64 << k) - 1, -(1i64 << k), (1i64 << k) - 1, 1i64 << k]);
+            }
+            v
+        };
+        let usizes: Vec<usize> = vec![0, 1, 127, 128, 255, 256, 257, 65_535, 65_536, u32::MAX as usize, u32::MAX as usize + 1, usize::MAX - 1, usize::MAX];
+        let i32s: Vec<i32> = vec![i32::MIN, i32::MIN + 1, -65_536, -32_769, -32_768, -129, -128, -1, 0, 1, 127, 128, 255, 256, 32_767, 32_768, 65_535, 65_536, i32::MAX - 1, i32::MAX];
+        for &t in &i64s {
+            for &i in &usizes {
+                t5.evals += 1;
+                let x = Transition::new(t, i);
+                if x.unix_leap_time() != t || x.local_time_type_index() != i {
+                    rec.violation("getters", json!({"kind":"getter","what":"Transition","t":t,"i":i as u64}), json!([t, i as u64]), json!([x.unix_leap_time(), x.local_time_type_index() as u64]));
+                }
+            }
+            for &c in &i32s {
+                t5.evals += 1;
+                let x = LeapSecond::new(t, c);
+                if x.unix_leap_time() != t || x.correction() != c {
+                    rec.violation("getters", json!({"kind":"getter","what":"LeapSecond","t":t,"c":c}), json!([t, c]), json!([x.unix_leap_time(), x.correction()]));
+                }
+            }
+        }
+        for &o in &i32s {
+            t5.evals += 1;
+            #[cfg(feature = "tz-alloc")]
+            {
+                let a = tz::TimeZone::fixed(o).map_err(|e| format!("{e:?}"));
+                let b = LocalTimeType::with_ut_offset(o).map_err(|e| format!("{e:?}")).and_then(|l| tz::TimeZone::new(vec![], vec![l], vec![], None).map_err(|e| format!("{e:?}")));
+                let same = match (&a, &b) {
+                    (Ok(x), Ok(y)) => x == y && x.find_local_time_type(0).map(|l| l.ut_offset()).ok() == Some(o) && x.as_ref().local_time_types().len() == 1 && x.as_ref().transitions().is_empty() && x.as_ref().leap_seconds().is_empty() && x.as_ref().extra_rule().is_none(),
+                    (Err(x), Err(y)) => x == y,
+                    _ => false,
+                };
+                if !same {
+                    rec.violation("getters", json!({"kind":"getter","what":"TimeZone::fixed","o":o}), json!(format!("{b:?}")), json!(format!("{a:?}")));
+                }
+            }
+            for dst in [false, true] {
+                for name in [None, Some(&b"ABC"[..]), Some(&b"A-+0z9Z"[..])] {
+                    if let Ok(l) = LocalTimeType::new(o, dst, name) {
+                        t5.evals += 1;
+                        if l.ut_offset() != o || l.is_dst() != dst || l.time_zone_designation().as_bytes() != name.unwrap_or(b"") {
+                            rec.violation("getters", json!({"kind":"getter","what":"LocalTimeType","o":o,"dst":dst}), json!([o, dst]), json!(format!("{l:?}")));
+                        }
+                    }
+                }
+            }
+        }
+    }
+    rec.sub("getters", json!({"evaluations": t5.evals}));
+    total = total.merge(t5);
+
     rec.add(total.evals, total.single_defect);
     rec.digest("zonecons", total.digest);
     rec.set_rule("small world: all transition sequences of length 0..3 (4) over 5 times x 4 indices with 0..2 types, 5 leap tables and 4-5 rules; all leap sequences of length 0..3 (4) over 11 times x 7 corrections with 4 transition tables; trailing rules differing from the last type in exactly one attribute, DST rule (also with identical / name-only-different types) agreeing/disagreeing around rule transitions, at range ends and at +-2^56..2^62; last transition aligned with a leap record and a rule transition; every designation up to length 7 (9) over 8 symbols x 4 offsets. Oracle: reference validator; owned == borrowed. non-trivial = refusals with exactly one violated condition (error kind compared)");
